@@ -240,6 +240,9 @@ theorem shape_documented_accepted (dims shape : List ℕ)
   · exact (shape_accept_iff dims shape (by rw [h, List.length_map])).2 (Or.inr (Or.inl h))
   · unfold shapeOutcome; rw [if_pos h]
 
+example : shapeOutcome [2, 3] [2, 3] = .accept ∧ shapeOutcome [2, 3] [1, 1] = .accept
+    ∧ shapeOutcome [2, 3] [] = .accept ∧ shapeOutcome [2, 3] [3, 2] = .valueError := by decide
+
 /-- FULL statement over all ranks (false for the code as it is) -/
 def shape_eq_spec_statement : Prop :=
   ∀ dims shape : List ℕ, dims ≠ [] → shapeOutcome dims shape = specShape dims shape
@@ -248,6 +251,69 @@ def shape_eq_spec_statement : Prop :=
 theorem shape_eq_spec_counterexample : ¬ shape_eq_spec_statement := by
   intro h
   exact absurd (h [2, 2] [2] (by decide)) (by decide)
+
+/-- acceptance as a disjunction of the two comparisons -/
+theorem shape_accept_of_cmp (dims shape : List ℕ) (hp : ¬ shape.prod = 1) (b1 b2 : Bool)
+    (e1 : bcastAllEq shape dims = some b1)
+    (e2 : bcastAllEq shape (dims.map (· + 2)) = some b2) :
+    shapeOutcome dims shape = .accept ↔ (b1 = true ∨ b2 = true) := by
+  unfold shapeOutcome
+  rw [if_neg hp, e1, e2]
+  cases b1 <;> cases b2 <;> simp
+
+/-- rank-1 value on a mesh of another rank: numpy broadcasts the single extent against all
+    mesh extents -/
+theorem shape_accept_rank1 (dims shape : List ℕ) (hs : shape.length = 1) (hd : dims.length ≠ 1) :
+    shapeOutcome dims shape = .accept ↔
+      (shape.prod = 1 ∨ (∀ d ∈ dims, d = shape.headD 0) ∨ (∀ d ∈ dims, d + 2 = shape.headD 0)) := by
+  by_cases hp : shape.prod = 1
+  · simp [shapeOutcome, hp]
+  · have hl : ¬ shape.length = dims.length := by omega
+    have e1 : bcastAllEq shape dims = some (dims.all (· == shape.headD 0)) := by
+      unfold bcastAllEq
+      rw [if_neg hl, if_pos hs]
+    have e2 : bcastAllEq shape (dims.map (· + 2))
+        = some ((dims.map (· + 2)).all (· == shape.headD 0)) := by
+      unfold bcastAllEq
+      rw [if_neg (by rw [List.length_map]; exact hl), if_pos hs]
+    rw [shape_accept_of_cmp dims shape hp _ _ e1 e2]
+    simp [hp, List.all_eq_true]
+
+/-- any value on a 1-D mesh: numpy broadcasts the single mesh extent against all value extents -/
+theorem shape_accept_mesh1 (dims shape : List ℕ) (hd : dims.length = 1) (hs : shape.length ≠ 1) :
+    shapeOutcome dims shape = .accept ↔
+      (shape.prod = 1 ∨ (∀ s ∈ shape, s = dims.headD 0) ∨ (∀ s ∈ shape, s = dims.headD 0 + 2)) := by
+  by_cases hp : shape.prod = 1
+  · simp [shapeOutcome, hp]
+  · have hl : ¬ shape.length = dims.length := by omega
+    obtain ⟨n, rfl⟩ : ∃ n, dims = [n] := by
+      match dims, hd with
+      | [n], _ => exact ⟨n, rfl⟩
+    have e1 : bcastAllEq shape [n] = some (shape.all (· == n)) := by
+      unfold bcastAllEq
+      rw [if_neg (show ¬ shape.length = [n].length from hs), if_neg hs,
+        if_pos (show [n].length = 1 from rfl)]
+      rfl
+    have e2 : bcastAllEq shape ([n].map (· + 2)) = some (shape.all (· == n + 2)) := by
+      show bcastAllEq shape [n + 2] = _
+      unfold bcastAllEq
+      rw [if_neg (show ¬ shape.length = [n + 2].length from hs), if_neg hs,
+        if_pos (show [n + 2].length = 1 from rfl)]
+      rfl
+    rw [shape_accept_of_cmp [n] shape hp _ _ e1 e2]
+    simp [hp, List.all_eq_true]
+
+/-- any other rank mismatch: the comparison itself fails (ValueError) unless the value has one entry -/
+theorem shape_accept_other_rank (dims shape : List ℕ) (hl : shape.length ≠ dims.length)
+    (hs : shape.length ≠ 1) (hd : dims.length ≠ 1) :
+    shapeOutcome dims shape = .accept ↔ shape.prod = 1 := by
+  by_cases hp : shape.prod = 1
+  · simp [shapeOutcome, hp]
+  · simp [shapeOutcome, bcastAllEq, hp, hl, hs, hd]
+
+example : shapeOutcome [3, 3] [3] = .accept ∧ shapeOutcome [3, 3] [5] = .accept
+    ∧ shapeOutcome [3] [3, 3] = .accept ∧ shapeOutcome [3] [5, 5, 5] = .accept
+    ∧ shapeOutcome [2, 3] [2] = .valueError ∧ shapeOutcome [2, 2, 2] [2, 2] = .valueError := by decide
 
 /-- EXACT characterisation of what the cascade lets through, all ranks: besides the documented
     shapes, a rank-1 shape `[s]` when all extents (or all extents + 2) equal `s`, and — for a
@@ -272,6 +338,165 @@ theorem shape_accept_general (dims shape : List ℕ) :
       · exact Or.inr (Or.inl h)
       · exact absurd (hl ▸ h1) h2
       · exact absurd (hl.symm ▸ h1) h2
-  · sorry
+  · have n1 : ¬ shape = dims := fun e => hl (by rw [e])
+    have n2 : ¬ shape = dims.map (· + 2) := fun e => hl (by rw [e, List.length_map])
+    by_cases hs : shape.length = 1
+    · have hd : dims.length ≠ 1 := fun e => hl (by omega)
+      rw [shape_accept_rank1 dims shape hs hd]
+      constructor
+      · rintro (h | h)
+        · exact Or.inl h
+        · exact Or.inr (Or.inr (Or.inr (Or.inl ⟨hs, hd, h⟩)))
+      · rintro (h | h | h | ⟨_, _, h⟩ | ⟨h, _, _⟩)
+        · exact Or.inl h
+        · exact absurd h n1
+        · exact absurd h n2
+        · exact Or.inr h
+        · exact absurd h hd
+    · by_cases hd : dims.length = 1
+      · rw [shape_accept_mesh1 dims shape hd hs]
+        constructor
+        · rintro (h | h)
+          · exact Or.inl h
+          · exact Or.inr (Or.inr (Or.inr (Or.inr ⟨hd, hs, h⟩)))
+        · rintro (h | h | h | ⟨h, _, _⟩ | ⟨_, _, h⟩)
+          · exact Or.inl h
+          · exact absurd h n1
+          · exact absurd h n2
+          · exact absurd h hs
+          · exact Or.inr h
+      · rw [shape_accept_other_rank dims shape hl hs hd]
+        constructor
+        · exact Or.inl
+        · rintro (h | h | h | ⟨h, _, _⟩ | ⟨h, _, _⟩)
+          · exact h
+          · exact absurd h n1
+          · exact absurd h n2
+          · exact absurd h hs
+          · exact absurd h hd
+
+/-- the accepted-but-undocumented shapes are exactly the broadcasting cases -/
+theorem shape_deviation_iff (dims shape : List ℕ) :
+    shapeOutcome dims shape ≠ specShape dims shape ↔
+      (shape.prod ≠ 1 ∧ shape ≠ dims ∧ shape ≠ dims.map (· + 2) ∧
+        ((shape.length = 1 ∧ dims.length ≠ 1 ∧
+            ((∀ d ∈ dims, d = shape.headD 0) ∨ (∀ d ∈ dims, d + 2 = shape.headD 0)))
+        ∨ (dims.length = 1 ∧ shape.length ≠ 1 ∧
+            ((∀ s ∈ shape, s = dims.headD 0) ∨ (∀ s ∈ shape, s = dims.headD 0 + 2))))) := by
+  have g := shape_accept_general dims shape
+  by_cases hs : shape = dims ∨ shape = dims.map (· + 2) ∨ shape.prod = 1
+  · have e : shapeOutcome dims shape = .accept := shape_documented_accepted dims shape hs
+    rw [specShape, if_pos hs, e]
+    constructor
+    · intro h; exact absurd rfl h
+    · rintro ⟨h1, h2, h3, _⟩
+      rcases hs with h | h | h
+      · exact absurd h h2
+      · exact absurd h h3
+      · exact absurd h h1
+  · rw [specShape, if_neg hs]
+    have hs' : shape.prod ≠ 1 ∧ shape ≠ dims ∧ shape ≠ dims.map (· + 2) :=
+      ⟨fun h => hs (Or.inr (Or.inr h)), fun h => hs (Or.inl h), fun h => hs (Or.inr (Or.inl h))⟩
+    constructor
+    · intro h
+      have ha : shapeOutcome dims shape = .accept := by
+        rcases shape_outcome_cases dims shape with e | e
+        · exact e
+        · exact absurd e h
+      rcases g.1 ha with h | h | h | h | h
+      · exact absurd h hs'.1
+      · exact absurd h hs'.2.1
+      · exact absurd h hs'.2.2
+      · exact ⟨hs'.1, hs'.2.1, hs'.2.2, Or.inl h⟩
+      · exact ⟨hs'.1, hs'.2.1, hs'.2.2, Or.inr h⟩
+    · rintro ⟨_, _, _, h⟩
+      have ha : shapeOutcome dims shape = .accept :=
+        g.2 (Or.inr (Or.inr (Or.inr h)))
+      rw [ha]; decide
+
+/-! ## Equation terms of `solvePDE` -/
+
+/-- FULL statement (false for the code as it is) -/
+def term_eq_spec_statement : Prop := ∀ t ∈ allTerms, termOutcome t = specTerm t
+
+/-- `solvePDE(phi, [(M, v, v)])` raises ValueError (tuple unpacking) -/
+theorem term_eq_spec_counterexample : ¬ term_eq_spec_statement := by
+  intro h
+  exact absurd (h .tuple3 (by decide)) (by decide)
+
+theorem term_eq_spec_partial : ∀ t ∈ allTerms, t ∉ termDeviations → termOutcome t = specTerm t := by
+  decide
+
+theorem term_deviations_exact :
+    ∀ t ∈ allTerms, (t ∈ termDeviations ↔ termOutcome t ≠ specTerm t) := by decide
+
+theorem term_deviation_values :
+    termDeviations.map termOutcome = [.valueError, .attrError, .attrError, .attrError, .attrError] := by
+  decide
+
+/-- every documented term kind is accepted, no undocumented one is -/
+theorem term_accept_iff : ∀ t ∈ allTerms, (termOutcome t = .accept ↔ specTerm t = .accept) := by
+  decide
+
+/-- `allTerms` lists every constructor -/
+theorem allTerms_complete (t : TermShape) : t ∈ allTerms := by cases t <;> decide
+
+/-! ## Boundary coefficients -/
+
+theorem bface_eq_spec (a b c : CoefType) : bfaceOutcome a b c = specBFace a b c := by
+  cases a <;> cases b <;> cases c <;> decide
+
+theorem bface_accept_iff (a b c : CoefType) :
+    bfaceOutcome a b c = .accept ↔ (a = .ndarray ∧ b = .ndarray ∧ c = .ndarray) := by
+  cases a <;> cases b <;> cases c <;> decide
+
+theorem bface_reject_typeError (a b c : CoefType) (h : ¬ (a = .ndarray ∧ b = .ndarray ∧ c = .ndarray)) :
+    bfaceOutcome a b c = .typeError := by
+  revert h; cases a <;> cases b <;> cases c <;> decide
+
+example : bfaceOutcome .ndarray .float .ndarray = .typeError := by decide
+
+/-! ## Periodic flags on a radial boundary -/
+
+/-- for EVERY list of flags: rejected ⇔ radial class ∧ (left ∨ right flagged) -/
+theorem radial_periodic_iff (k : Kind) (flags : List Bool) :
+    radialPeriodicOutcome k flags = .valueError ↔
+      (k.radial = true ∧ (flags.getD 0 false = true ∨ flags.getD 1 false = true)) := by
+  unfold radialPeriodicOutcome
+  cases k <;> cases flags.getD 0 false <;> cases flags.getD 1 false <;> decide
+
+theorem radial_periodic_eq_spec (k : Kind) (flags : List Bool) :
+    radialPeriodicOutcome k flags = specRadialPeriodic k flags := by
+  unfold radialPeriodicOutcome specRadialPeriodic
+  cases k <;> cases flags.getD 0 false <;> cases flags.getD 1 false <;> decide
+
+/-- otherwise the flags are accepted (periodicity along non-radial axes is legal on every class) -/
+theorem radial_periodic_accept (k : Kind) (flags : List Bool)
+    (h : ¬ (k.radial = true ∧ (flags.getD 0 false = true ∨ flags.getD 1 false = true))) :
+    radialPeriodicOutcome k flags = .accept := by
+  revert h
+  unfold radialPeriodicOutcome
+  cases k <;> cases flags.getD 0 false <;> cases flags.getD 1 false <;> decide
+
+example : radialPeriodicOutcome .cyl2 [false, false, true, true, false, false] = .accept
+    ∧ radialPeriodicOutcome .cart1 [true, true, false, false, false, false] = .accept
+    ∧ radialPeriodicOutcome .sph3 [false, true, false, false, false, false] = .valueError := by decide
+
+/-- the table over all 64 flag subsets × 9 classes (what the correspondence enumerates) -/
+theorem radial_periodic_table :
+    ∀ k ∈ allKinds, ∀ f ∈ allFlags, radialPeriodicOutcome k f = specRadialPeriodic k f := by
+  decide
+
+theorem allFlags_length : allFlags.length = 64 := by decide
+
+/-- the decision agrees with `radialPeriodicRejected` of the boundary model used by C07/C08 -/
+theorem radial_periodic_matches_BC_model {α : Type} (k : Kind) (bc : BCs α) :
+    radialPeriodicOutcome k
+        [(bc.lo .x).periodic, (bc.hi .x).periodic, (bc.lo .y).periodic, (bc.hi .y).periodic,
+         (bc.lo .z).periodic, (bc.hi .z).periodic] = .valueError
+      ↔ radialPeriodicRejected k bc = true := by
+  unfold radialPeriodicOutcome radialPeriodicRejected BCs.periodicDir
+  simp only [List.getD_cons_zero, List.getD_cons_succ]
+  cases k <;> cases (bc.lo .x).periodic <;> cases (bc.hi .x).periodic <;> decide
 
 end PyFV.C16
